@@ -195,7 +195,7 @@ fn miri_shard(seed: u64, merged: &mut Report) {
                     break;
                 }
                 Ok(None) => {
-                    if t.elapsed() > Duration::from_secs(1500) {
+                    if t.elapsed() > Duration::from_secs(4000) {
                         let _ = c.kill();
                         let _ = c.wait();
                         merged.inconclusive(format!("miri shard {} exceeded its watchdog", shard));
